@@ -511,6 +511,11 @@ func verifC02Check(opt Option, code uint16, want []byte, wordsAt ...int) {
 	// C20 on typed values with symbolic fields: reading or printing the option (the one built and
 	// the one decoded) changes neither its encoding nor what its accessors return
 	verifC20Readers(back, false)
+	// C08 on typed values: the decoded option owns its memory — the buffer it was decoded from is
+	// overwritten with an arbitrary pattern and the option must still encode as before
+	enc0 := append([]byte(nil), back.ToBytes()...)
+	verifHavoc("scribble-in", b)
+	verifAssert(verifSame(back.ToBytes(), enc0), "overwriting-the-source-buffer-changes-nothing")
 	verifReach("end")
 }
 
